@@ -522,6 +522,19 @@ example : (formatString BS.Gen.C09.htmlTable BS.Gen.C09.xmlTable BS.Gen.C09.html
     BS.Gen.C09.htmlDefaultCdata true (.key true (ofS "minimal")) (some (ofS "script")) (ofS "a<b")) = some (ofS "a&lt;b") := by
   decide +kernel
 
+/-- An attribute value goes through the substitution wherever the string object that carries it hangs; 4.13.0 left a
+    string object taken from a `<script>` raw (finding `C09-attribute-value-in-cdata-string`), which a parser reads back
+    differently: `&amp;` written as `&amp;` comes back as `&`. -/
+theorem attribute_value_ignores_parent (X : List (Nat × PStr)) (T : Tbl) (hx : XmlOK X T = true) (h : TblOK T = true)
+    (h5 : Html5FixOK T = true) (e : RegEntry) (he : e.fn = 1 ∨ e.fn = 2 ∨ e.fn = 3) (s : PStr) :
+    readAttr T (quoteAttr (attributeValue T X e s)) = some s :=
+  formatter_attr_roundtrip X T hx h h5 e he s
+
+theorem attribute_value_old_not_reversible :
+    (findFormatter BS.Gen.C09.htmlRegistry true (ofS "minimal")).map (fun e =>
+      readAttr BS.Gen.C09.htmlTable (quoteAttr (attributeValueOld BS.Gen.C09.htmlTable BS.Gen.C09.xmlTable e
+        (some (ofS "script")) (ofS "&amp;")))) = some (some (ofS "&")) := by decide +kernel
+
 /-- `key="value"`: a list-valued attribute is joined with single spaces, substituted, quoted; what is read back from the quoted
     part is the joined value. `None` renders the bare key. -/
 theorem formatAttribute_roundtrip (X : List (Nat × PStr)) (T : Tbl) (hx : XmlOK X T = true) (h : TblOK T = true)
